@@ -10,6 +10,7 @@
 import hashlib
 import os
 import random
+import re
 import resource
 import subprocess
 
@@ -68,14 +69,41 @@ def _big_stack():
 
 
 # ------------------------------------------------------------------------------------------------ running both sides
+def _table_changes(out):
+    """T/TN lines (tables of package arch when the harness process started) against U/UN lines (when it ended)."""
+    def pairs(line, skip):
+        f = line.split(" ")[skip:]
+        return dict(zip(f[0::2], f[1::2]))
+    tabs = {}
+    for ln in out.splitlines():
+        tag = ln.split(" ", 1)[0]
+        if tag in ("T", "U", "TN", "UN"):
+            key = ln.split(" ", 2)[1]
+            tabs[(tag, key)] = pairs(ln, 5 if tag in ("T", "U") else 3)
+    res = []
+    for (tag, key), before in sorted(tabs.items()):
+        if tag not in ("T", "TN"):
+            continue
+        after = tabs.get(("U" if tag == "T" else "UN", key))
+        if after is None or after == before:
+            continue
+        dec = (lambda k, v: (int(k), unhx(v).decode("utf-8", "replace"))) if tag == "T" else (lambda k, v: (unhx(k).decode("utf-8", "replace"), int(v)))
+        res.append(dict(table=key, map="SyscallNumbers" if tag == "T" else "SyscallNames",
+                        added=[dec(k, after[k]) for k in after if k not in before][:5],
+                        removed=[dec(k, before[k]) for k in before if k not in after][:5],
+                        changed=[(dec(k, before[k]), dec(k, after[k])) for k in before if k in after and after[k] != before[k]][:5]))
+    return res
+
+
 class Runner:
     def __init__(self, ctx):
         self.ctx = ctx
         r = ctx.run_harness(["disasm"], "")
         if r.returncode != 0:
             raise RuntimeError("harness disasm failed: " + r.stderr[-2000:])
-        self.header = r.stdout
+        self.header = "".join(ln + "\n" for ln in r.stdout.splitlines() if ln[:2] in ("A ", "T "))
         self.arch_ids = {}
+        self.table_changes = []
         self.tables = {}
         for ln in self.header.splitlines():
             f = ln.split(" ")
@@ -93,7 +121,20 @@ class Runner:
         g = self.ctx.run_harness(["disasm"], inp, timeout=3000)
         if g.returncode != 0:
             raise RuntimeError("harness disasm failed: " + g.stderr[-2000:])
-        go = [ln for ln in g.stdout.splitlines() if ln[:2] not in ("A ", "T ")]
+        go = [ln for ln in g.stdout.splitlines() if ln[:2] not in ("A ", "T ") and ln[:3] not in ("TN ", "UN ") and ln[:2] != "U "]
+        # package arch's tables after the parser has worked, against what they were when the process started
+        ch = _table_changes(g.stdout)
+        if ch and not self.table_changes:
+            culprit = None
+            for ln in [x for x in lines if x.startswith("C ")][:400]:
+                g1 = self.ctx.run_harness(["disasm"], ln + "\n", timeout=300)
+                c1 = _table_changes(g1.stdout) if g1.returncode == 0 else None
+                if c1:
+                    culprit, ch = ln, c1
+                    break
+            self.table_changes.append(dict(changes=ch, case=culprit, cases_in_process=len(lines)))
+        # the model reads texts: a named pipe carrying a text is that text
+        inp = "\n".join(re.sub(r"^(C \S+ \S+) fifo ", r"\1 file ", ln) for ln in lines) + "\n"
         m = subprocess.run([DISASM_DRIVER], input=self.header + inp, capture_output=True, text=True, timeout=3000,
                            preexec_fn=_big_stack)
         if m.returncode != 0:
@@ -489,7 +530,7 @@ def property_problems(item, tables):
         # the property says nothing about which architectures are supported: a record that is refused is fine
         if parser is None and st == "ERR":
             continue
-        want_err = mode != "file" or too_long(data)
+        want_err = mode not in ("file", "fifo") or too_long(data)
         if st == "PANIC":
             probs.append("input %d: ExtractSyscalls panicked: %s" % (i, v))
         elif st == "ERR_WITH_VALUE":
@@ -497,7 +538,7 @@ def property_problems(item, tables):
         elif st == "ERR" and not want_err:
             probs.append("input %d: an error was returned for a text that can be read to the end (no line of %d bytes or more)" % (i, MAX_TOKEN))
         elif st == "OK" and want_err:
-            why = ("the path is a directory / does not exist" if mode != "file"
+            why = ("the path is a directory / does not exist" if mode not in ("file", "fifo")
                    else "a line has %d bytes or more, the scanner cannot read the text to the end" % MAX_TOKEN)
             probs.append("input %d: a result (%d records) was returned although %s: silent truncation" % (i, len(v), why))
         elif st == "OK":
@@ -547,6 +588,10 @@ def generate_items(rng, tier, tables):
     models["X32"] = SiteModel(rng, "X86_64", tables["X86_64"], known=x32_foreign or None)
 
     def add(it, label):
+        if it.modes == ["file"] and rng.random() < 0.04:
+            # the same text handed over through a named pipe (no size, bytes arrive in pieces)
+            it.modes = ["fifo"]
+            label += " (through a named pipe)"
         items.append(it)
         dist[label] = dist.get(label, 0) + 1
 
@@ -737,6 +782,15 @@ def check_C16(ctx, replay=None):
         return
     runner = Runner(ctx)
     if replay:
+        if replay.get("prim_case"):
+            runner.run([replay["prim_case"]])
+            if runner.table_changes:
+                p = ctx.violation("counterexample", dict(what="disasm.ExtractSyscalls changed the syscall tables of package arch", prim_case=replay["prim_case"],
+                                                         changes=runner.table_changes[0]["changes"]), True)
+                rewrite_with_replay_cmd(ctx, p)
+            else:
+                ctx.log("replay: the tables of package arch are unchanged after this listing")
+            return
         if replay.get("prim_line"):
             go, mo = runner.run([replay["prim_line"]])
             if go != mo:
@@ -764,6 +818,17 @@ def check_C16(ctx, replay=None):
     def acc(d, k, v=1):
         d[k] = d.get(k, 0) + v
 
+    def tables_intact():
+        nonlocal nbad
+        if runner.table_changes and nbad == 0:
+            tc = runner.table_changes[0]
+            nbad += 1
+            p = ctx.violation("counterexample", dict(
+                what="disasm.ExtractSyscalls changed the syscall tables of package arch (shared by every policy compiled in the process afterwards)",
+                changes=tc["changes"], prim_case=tc["case"], cases_in_process=tc["cases_in_process"],
+                input_text=unhx(tc["case"].split(" ")[4]).decode("utf-8", "replace")[:3000] if tc["case"] else None), True)
+            rewrite_with_replay_cmd(ctx, p)
+
     for rnd in range(rounds):
         items, d1, s1 = generate_items(rng, ctx.tier, runner.tables)
         ncases += evaluate(ctx, runner, items)
@@ -786,6 +851,7 @@ def check_C16(ctx, replay=None):
                 sample.append(dict(arch=it.arch, kind=it.kind, text=it.datas[0][:400].decode("utf-8", "replace"), result=show_recs(it.go[0])))
         if rounds > 1:
             ctx.log("round %d/%d: %d ExtractSyscalls calls so far, %d differences, %d counterexamples" % (rnd + 1, rounds, ncases, ndiff, nbad))
+    tables_intact()
     # the models of the library functions against the library
     plines = prim_lines(rng, 1500 if ctx.tier == "quick" else 30000)
     pgo, pmo = runner.run(plines)
